@@ -478,7 +478,7 @@ def _where(a, b):
     return "?"
 
 
-FMT_IN = {"fasta": [], "phylip": ["-p"], "nexus": ["-x"], "clustal": ["-u"]}
+FMT_IN = {"fasta": [], "phylip": ["-p"], "nexus": ["-x"], "clustal": ["-u"], "stockholm": ["-k"]}
 
 # names routed to the protein branch of `compute distance` / `build distboot` (models/protein ModelStringToInt knows the first
 # seven; a name it does not know - "dayhoff", upper case - makes the harness answer `err nomodel` and the command must fail too)
@@ -515,6 +515,7 @@ def run_det_case(c, timeout_s=120.0):
       det      <stdin> <threads,threads,...> <files> <argv...>   every run (`-t n` appended) gives the same bytes
       detslow  the same with 1.1 s between the runs (outputs that embed a time stamp of 1 s resolution: gzip headers, archives)
       detchain <stdin> <fmt,fmt,...,fmt>                          reformat chain back to the first format
+      detchainsto <stdin> <k> <fmt,...,fmt>                       Stockholm file through k `-k` commands, then a reformat chain = reformat directly
       detboot  <stdin> <model> <n> <frac num/den> <seed> <threads> seqboot + compute distance = distboot
       detmulti <aln;;aln;;...> <files> <argv...>                  multi-alignment input = the alignments one by one
       detannot <stdin> <annotation> <argv with @ANN@...>          annotation file plain = .gz = on the standard input
@@ -773,6 +774,48 @@ def run_det_case(c, timeout_s=120.0):
                     return
                 cur = r[1]
             c.impl = ("same rc=0 out=%d files=0" % len(cur)) if cur == r0[1] else "differ stdout after %s" % ">".join(chain + [chain[0]])
+        elif c.op == "detchainsto":
+            # detchainsto <stdin FASTA> <k> <fmt,...,fmt>: the command line reads Stockholm with -k and writes it only from a
+            # Stockholm input (no `reformat stockholm`).  A Stockholm file WRITTEN BY GOALIGN (a hand-written one passed through
+            # a -k command that prints its alignment) must (a) come back byte for byte from k further such commands, and
+            # (b) after any reformat chain f1 > ... > fn give the bytes of `reformat fn -k` on the file itself.
+            rows, name = [], None
+            for ln in stdin.decode().split("\n"):
+                if ln.startswith(">"):
+                    name = ln[1:]
+                    rows.append([name, ""])
+                elif ln and rows:
+                    rows[-1][1] += ln
+            L = len(rows[0][1]) if rows else 0
+            passes = [["addid", "-n", ""], ["subseq", "-s", "0", "-l", str(L)], ["replace", "-s", "Z", "-n", "Z"], ["trim", "seq", "-n", "0"]]
+            hand = ("# STOCKHOLM 1.0\n" + "".join("%s\t%s\n" % (n_, s_) for n_, s_ in rows) + "//\n").encode()
+            k = int(c.args[1])
+            chain = [f for f in c.args[2].split(",") if f and f != "_"]
+            r0 = exec_goalign(passes[k % len(passes)] + ["-k"], hand, {}, timeout_s)
+            if r0[0] != 0:
+                c.impl = "same rc=%s out=0 files=0" % r0[0]      # not an alignment goalign writes: nothing to chain
+                return
+            s0 = r0[1]
+            cur = s0
+            for i in range(k):
+                r = exec_goalign(passes[i % len(passes)] + ["-k"], cur, {}, timeout_s)
+                if r[0] != 0 or r[1] != s0:
+                    c.impl = "differ %s at stockholm->stockholm step %d (%s)" % ("exit-status:%s" % r[0] if r[0] else "stdout", i, " ".join(passes[i % len(passes)]))
+                    return
+                cur = r[1]
+            prev = "stockholm"
+            for nxt in chain:
+                r = exec_goalign(["reformat", nxt] + FMT_IN[prev], cur, {}, timeout_s)
+                if r[0] != 0:
+                    c.impl = "differ exit-status:%s at %s->%s" % (r[0], prev, nxt)
+                    return
+                cur, prev = r[1], nxt
+            if chain:
+                d = exec_goalign(["reformat", chain[-1], "-k"], s0, {}, timeout_s)
+                if d[0] != 0 or d[1] != cur:
+                    c.impl = "differ %s: stockholm>%s against stockholm>%s" % ("exit-status:%s" % d[0] if d[0] else "stdout", ">".join(chain), chain[-1])
+                    return
+            c.impl = "same rc=0 out=%d files=0 sto=%s" % (len(cur), s0.decode("latin-1").replace("\n", "|").replace("\t", "~"))
         elif c.op == "detboot":
             model, n, frac, seed, t = c.args[1].split(" "), int(c.args[2]), c.args[3], str(c.args[4]), str(c.args[5])
             num, den = frac.split("/")
